@@ -36,6 +36,22 @@ CLAIMED = {
              "DUnion keeps exactly one literal holding exactly the observed plain strings iff no str member, no overflowed literal and "
              "the folded set does not overflow, otherwise str; render limit (len < max, 0 or attrs => never). Annotation bytes tied by "
              "X-emit; evaluated annotations of the loaded module judged by the oracle over the boundary stream.", "6 (C10)"),
+    "C03": C("Theorems (Props/C03.v, growing): every Python keyword is blacklisted and the '_' suffix escapes the blacklist (over the tables "
+             "regenerated from models/base.py and the interpreter). The emitter model is tied byte-for-byte to generate_code on every "
+             "explored registry (X-emit, including the cases where the implementation raises); that CPython compiles, executes and "
+             "resolves every annotation of the emitted text is judged by the oracle (compile + exec + get_type_hints with the class "
+             "scope chain): partial.", "6 (C03)"),
+    "C04": C("Theorems (Props/C04.v, growing): per generator, the field body holds a default exactly when the field is optional "
+             "([] / {} / None; list / dict factories), alias=json(key) exactly when the label differs from the key. Bytes tied by X-emit; "
+             "the evaluated annotations, attached keys and defaults of the loaded classes are compared field by field with an "
+             "independent rendering of the registry by the oracle: partial.", "6 (C04)"),
+    "C11": C("Theorems (Props/C11.v, growing; label_fold / label_injective / convert_idem being merged from Proofs/LabelProps.v): "
+             "table links, blacklist suffix property. prepare_label / underscore / camelize are tied by X-names on wide-alphabet keys, "
+             "alias / metadata literals by X-emit; distinctness and recoverability judged on the loaded field tables: partial.", "6 (C11)"),
+    "C12": C("Model of compose_models / compose_models_flat / extract_root / PositionsDict validated on both layouts of every explored "
+             "registry (X-layout, exact). Theorems (Props/C12.v; flat_perm / flat_root_first / nested_tree being merged from "
+             "Proofs/LayoutProps.v). The oracle compares both emitted modules class by class on tree-shaped graphs and checks flat "
+             "completeness on all inputs.", "6 (C12)"),
     "C13": C("Theorems (Props/C13.v): an object is detected as Dict iff it is empty, or the direct value of a named field, or all keys "
              "match one regex (dict_decision_iff); otherwise a model with exactly its keys; element/values of containers are never "
              "affected by the field option; Dict value type = union of the value types. Regex matching itself is an oracle (re); the "
